@@ -626,6 +626,37 @@ func RandValue(r *rand.Rand, depth int) V {
 
 var oddKinds = []string{"mystr", "myint", "myf64", "mymap", "mylist", "arr3", "strarr2", "ppint", "pmap", "mapik", "mapifk", "chan", "stringer", "pstringer", "holder", "nilholder", "listnil", "bytes", "errval", "cplx", "uintptr", "nilfunc", "nilslice", "nilstrs", "nilmap", "emptylist", "selfembed", "selfembed1", "pselfembed", "mutual", "mutual1", "rawbytes", "myrunes", "yamlmap"}
 
+// StripAddr returns the spec with every kind that fmt renders as a heap address somewhere (non-nil pointers nested in
+// containers, pointers inside structs, channels) replaced by an address-free relative. For comparisons between
+// processes, where the same data necessarily lives at other addresses.
+func StripAddr(v V) V {
+	switch v.K {
+	case "pstruct":
+		v.K = "struct"
+	case "selfembed1", "pselfembed":
+		v.K = "selfembed"
+	case "mutual1":
+		v.K = "mutual"
+	case "holder", "ppint", "pmap", "chan", "pstringer", "pint":
+		return Str("was " + v.K)
+	}
+	if len(v.L) > 0 {
+		l := make([]V, len(v.L))
+		for i, e := range v.L {
+			l[i] = StripAddr(e)
+		}
+		v.L = l
+	}
+	if len(v.M) > 0 {
+		m := make([]KV, len(v.M))
+		for i, e := range v.M {
+			m[i] = KV{e.K, StripAddr(e.V)}
+		}
+		v.M = m
+	}
+	return v
+}
+
 // OddKinds lists the odd kinds (for exhaustive pairings).
 func OddKinds() []string { return append([]string{}, oddKinds...) }
 
